@@ -25,7 +25,23 @@ def discr_switch_on(ctx, b, adt, want_param=None):
                 p = st["r"]["p"]
                 ty = b.locals[p["l"]]
                 base = ty.replace("&mut ", "").replace("&", "")
-                if base != adt or [e for e in p["p"] if e != "*"]:
+                flds = [e for e in p["p"] if isinstance(e, dict) and "f" in e]
+                if flds and not [e for e in p["p"] if isinstance(e, dict) and "f" not in e]:
+                    # discriminant of a field: the field's declared type must be the ADT
+                    f = flds[-1]["f"]
+                    if "." not in f or "::" not in f:
+                        continue
+                    a_, n_ = f.rsplit(".", 1)
+                    ad = ctx.prog.adts.get(a_)
+                    fty = None
+                    if ad:
+                        for v_ in ad["variants"]:
+                            for fn_, ft_ in v_["f"]:
+                                if fn_ == n_:
+                                    fty = ft_
+                    if fty != adt:
+                        continue
+                elif base != adt or [e for e in p["p"] if e != "*"]:
                     continue
                 names = {}
                 for v, tb in t["ts"]:
